@@ -28,6 +28,10 @@ FMS: list[tuple[str, str]] = [
     ("blank-lines-inside", "---\na: 1\n\n\nb: 2\n---\n"),
     ("md-inside", "---\n# not a heading\n- not a list **bold** `code` ... \"q\"\n---\n"),
     ("dashes-inside", "---\na: ---x\nb: --\n---\n"),
+    ("lone-cr", "---\na: x\ry\nb: z\r\n---\n"),
+    ("empty-block", "---\n---\n"),
+    ("blank-block", "---\n\n---\n"),
+    ("one-char", "---\na\n---\n"),
 ]
 BODIES: list[tuple[str, str]] = [
     ("para", "qaa qab qac qad qae\n"),
